@@ -31,10 +31,14 @@ def main():
         names = [l.get("name") for l in (f.get("mir") or {}).get("locals", [])[1:1 + (f.get("mir") or {}).get("arg_count", 0)]]
         table[f["id"]] = {"inputs": f.get("inputs"), "output": f.get("output"), "callees": callees(f), "file": f["sp"][0], "param_names": names,
                           "param_tys": [l["ty"] for l in (f.get("mir") or {}).get("locals", [])[1:1 + (f.get("mir") or {}).get("arg_count", 0)]]}
+    adts = {}
+    for a in doc["adts"]:
+        if a.get("kind") == "Struct" and len(a.get("variants", [])) == 1:
+            adts[a["path"]] = [[f["name"], f["ty"], bool(f.get("pub"))] for f in a["variants"][0]["fields"]]
     path = os.path.join(os.path.dirname(__file__), "..", "glcheck", "anchors.json")
     with open(path, "w") as fh:
-        json.dump(table, fh, indent=0, sort_keys=True)
-    print("froze %d functions into %s" % (len(table), os.path.normpath(path)))
+        json.dump({"fns": table, "structs": adts}, fh, indent=0, sort_keys=True)
+    print("froze %d functions and %d structs into %s" % (len(table), len(adts), os.path.normpath(path)))
 
 
 if __name__ == "__main__":
